@@ -4,7 +4,7 @@
     document loop), [m] (which documents match), [lsimp] (what d.simplify folds the List query to); all
     theorems quantify over them, i.e. over all queries, and over all shards (any mix of tenants,
     tombstones, sub-repositories, duplicate names).  [strict = true] is SRC_TENANT_ENFORCEMENT_MODE=strict. *)
-From ZV Require Import Lib.Base Model.Tenant Proofs.Tenant.
+From ZV Require Import Lib.Base Model.Tenant Proofs.Tenant Model.TenantListByName Proofs.TenantListByName.
 
 (** Search, every output channel: each file match is a live matching document of a repository the caller
     has access to (and carries that repository's name/id and one of its sub-repository names), and every
@@ -114,6 +114,25 @@ Theorem C23_no_leak_refuted_before_fix :
     ~ exists r, In r (map fst s) /\ has_access true c (r_tenant r) = true /\ In p (repo_url_pairs r).
 Proof. exact unfixed_leaks. Qed.
 Print Assumptions C23_no_leak_refuted_before_fix.
+
+(** Why List checks the tenant PER REPOSITORY although its entries are already filtered by the names that the
+    (tenant-safe) Search found: a variant that applies the check on the constant path only (Model/TenantListByName.v;
+    not the code of /repo) is equal to List as long as no repository the caller may not see has the name of one it may
+    see — and leaks a same-named repository of another tenant otherwise.  Repository names are unique per tenant only. *)
+Theorem C23_list_by_name_safe_without_name_clashes : forall strict c s lsimp scan m field,
+  (forall rd1 rd2, In rd1 s -> In rd2 s -> r_name (fst rd1) = r_name (fst rd2) ->
+     has_access strict c (r_tenant (fst rd1)) = has_access strict c (r_tenant (fst rd2))) ->
+  rlist_by_name strict c s lsimp scan m field = rlist strict c s lsimp scan m field.
+Proof. exact rlist_by_name_eq. Qed.
+Print Assumptions C23_list_by_name_safe_without_name_clashes.
+
+Theorem C23_list_by_name_refuted :
+  lr_map (rlist_by_name true (CtxTenant 1) dup_shard None true (fun _ _ => true) FReposMap) = [1; 2]%N /\
+  lr_map (rlist true (CtxTenant 1) dup_shard None true (fun _ _ => true) FReposMap) = [1]%N /\
+  lr_map (rlist_by_name true (CtxTenant 1) dup_shard (Some true) true (fun _ _ => true) FReposMap) = [1]%N /\
+  ~ names_respect_access true (CtxTenant 1) dup_shard.
+Proof. exact rlist_by_name_leaks. Qed.
+Print Assumptions C23_list_by_name_refuted.
 
 (** ---- non-vacuity ---- *)
 (** a compound shard of two tenants; tenant 1 searches a query matching everything: it receives its own file
